@@ -18,7 +18,8 @@ THEOREMS = [
     "Typedpy.C18.statement_false", "Typedpy.C18.construct_example", "Typedpy.C18.phase_one_scalar_sound",
     "Typedpy.C18.phase_one_float_spelling", "Typedpy.C18.phase_one_float_int_examples",
     "Typedpy.C18.deser_collect_exact_iff", "Typedpy.C18.two_phase_example", "Typedpy.C18.p1Site_isSome",
-    "Typedpy.C18.p1_names_own_field", "Typedpy.C18.stale_shared_inner_name_example",
+    "Typedpy.C18.p1_names_own_field", "Typedpy.C18.p1Sites_name_fields",
+    "Typedpy.C18.mapped_sites_name_fields", "Typedpy.C18.mapped_example", "Typedpy.C18.stale_shared_inner_name_example",
     "Typedpy.C18.set_build_site_examples",
 ]
 RULE = ("flat classes (1..5 fields: Integer/Number/Float incl. sign variants, String, Boolean, Enum, and Array/Deque/"
@@ -34,6 +35,11 @@ RULE = ("flat classes (1..5 fields: Integer/Number/Float incl. sign variants, St
         "ONE item Field instance shared by 2-3 collection fields (Array/Deque/Set/Tuple/Map key/Map value), with no / one / "
         "two earlier successful constructions or deserializations in the same process, then a bad element (out of "
         "bounds, ill-typed, unhashable list/dict, None) in one or two fields; the random stream also gets histories, "
+        "shared instances and unhashable elements; plus a mapper stream: key-renaming mappers (class dict _serialization_/"
+        "_deserialization_mapper, TO_LOWERCASE, TO_CAMELCASE, Deserializer/deserialize_structure(mapper=), "
+        "camel_case_convert) on classes of collections / Enum / scalars (modelled: docOfMapped) and AnyOf / nested "
+        "(oracle only), two-word snake_case field names, document written under the document keys; "
+        "formerly: "
         "shared instances and unhashable elements with p~0.3. Compared: phase one of deserialization "
         "(Lean `phaseOneInvalid` vs the real deserialize_single_field, field by field; Lean `p1Sites` — exception class, "
         "count/order, and the text every message must begin with given the OBSERVED scratch `_name`s of the inner Field "
